@@ -1140,7 +1140,14 @@ impl<'a, 'b> GeneratorState<'a> {
             }
         }
         self.label(&switchend_label)?;
-        self.loops.pop();
+        // A continue statement met in the switch concerns the enclosing loop,
+        // which must know that its continue label is used
+        let continue_used = self.loops.pop().map_or(false, |l| l.2);
+        if continue_used {
+            if let Some(l) = self.loops.last_mut() {
+                l.2 = true;
+            }
+        }
         Ok(())
     }
 }
